@@ -1053,7 +1053,29 @@ class Interp:
             return x.v in container.v
         return self.w.contains(self, container, x, node)
 
+    def canon_int(self, x):
+        """One representative per value: two terms that are equal on this order type (same group, or an exact gap between
+        their groups) must be the same dictionary key / set element."""
+        ot = self.ot
+        try:
+            fam = ot._of(x.base) if hasattr(ot, "_of") else ot
+            if not fam.has(x.base):
+                return x
+            best = None
+            for s in sorted(fam.symbols()):
+                lo, hi = fam.diff(x.base, s)
+                if lo is not None and lo == hi:
+                    best = Int(s, x.k + lo)
+                    break
+            return best if best is not None else x
+        except (KeyError, AttributeError, TypeError):
+            return x
+
     def dict_key(self, k, node):
+        if isinstance(k, Int):
+            return self.canon_int(k)
+        if isinstance(k, TupleV) and any(isinstance(i, (Int, TupleV)) for i in k.items):
+            return TupleV([self.dict_key(i, node) if isinstance(i, (Int, TupleV)) else i for i in k.items])
         if isinstance(k, (Const, NodeV, TupleV)) or getattr(k, "hashable_value", False):
             return k
         raise Unsupported(node, "dict key %r" % (k,))
@@ -1249,6 +1271,16 @@ class Interp:
             if kw:
                 raise Unsupported(e, "partial with keyword arguments")
             return self.apply_value(f.f, f.args + list(args), e)
+        if isinstance(f, Opaque) and f.tag.endswith(".pairwise") and len(args) == 1 and set(kwargs) <= {"cyclic"}:
+            q = self._seq(args[0], e)
+            if q is not None:
+                cyc = kwargs.get("cyclic", FALSE)
+                if not isinstance(cyc, Const):
+                    raise Unsupported(e, "pairwise(cyclic=%r)" % (cyc,))
+                pairs = [TupleV([a_, b_]) for a_, b_ in zip(q, q[1:])]
+                if cyc.v and q:
+                    pairs.append(TupleV([q[-1], q[0]]))
+                return IterV(pairs)
         if isinstance(f, Opaque) and f.tag.startswith("module:bisect.") and 2 <= len(args) <= 4:
             r = self.call_bisect(f.tag.split(".", 1)[1], args, kwargs, e)
             if r is not None:
@@ -1644,6 +1676,18 @@ class Interp:
                 self.depth -= 1
         if isinstance(f, Builtin):
             return self.call_builtin(f.name, list(args), {}, node)
+        if isinstance(f, TypeV) and f.name in ("tuple", "list", "set", "frozenset") and len(args) == 1:
+            q = self._seq(args[0], node)
+            if q is not None:
+                return {"tuple": TupleV, "list": ListObj, "set": SetObj, "frozenset": FrozenV}[f.name](list(q))
+            r = self.w.call_builtin(self, f.name, list(args), {}, node)
+            if r is not None:
+                return r
+        if isinstance(f, TypeV) and f.name in ("int", "float", "str", "bool") and len(args) == 1 and isinstance(args[0], Const):
+            try:
+                return Const({"int": int, "float": float, "str": str, "bool": bool}[f.name](args[0].v))
+            except (TypeError, ValueError) as ex:
+                raise AbstractRaise(type(ex).__name__, node, detail=str(ex))
         if isinstance(f, BoundMethod):
             return self.call_method(f, list(args), {}, node)
         if isinstance(f, Opaque) and f.tag in ("module:operator.itemgetter()",):
